@@ -159,4 +159,18 @@ def decodeOp2 (s : Topo) (api : List QI) : RawOp → Option Op
     some (.upd (decodeQI r) (swBad r.swShape) (le || hasBoundPods pods r.name oldNs))
   | r => decodeOp s r
 
+/-! ### the object an informer hands to a handler (quota_topology_check.go toElasticQuota) -/
+
+/-- toElasticQuota: shape 0 = typed *ElasticQuota, 1 = *unstructured.Unstructured, 2 = tombstone
+    (cache.DeletedFinalStateUnknown BY VALUE) holding an unstructured object, 3 = tombstone holding the typed object,
+    4 = anything else (e.g. a pointer to a tombstone).  An unstructured object is converted with client-go's
+    scheme.Scheme, which works only when the ElasticQuota type is registered there (`reg`); a tombstone is accepted only
+    when it holds an unstructured object.  `false` = the handler logs an error and returns without touching the state. -/
+def convertible (reg : Bool) (shape : Nat) : Bool :=
+  shape == 0 || ((shape == 1 || shape == 2) && reg)
+
+/-- a handler invocation with the delivered representation (both objects of an update come in the same one). -/
+def applyEvAs (reg : Bool) (shape : Nat) (s : Topo) (e : Ev) : Topo :=
+  if convertible reg shape then applyEv s e else s
+
 end KoordVerif.C15
